@@ -72,6 +72,13 @@ func addField(e *zerolog.Event, name, vc string, i int) (*zerolog.Event, interfa
 		return e.Dict(name, zerolog.Dict().Int("b", 1).Str("a", "x y")), map[string]interface{}{"b": json.Number("1"), "a": "x y"}
 	case "arr":
 		return e.Ints(name, []int{1, 2}), []interface{}{json.Number("1"), json.Number("2")}
+	case "objpct": // characters that are special to formatting verbs, quoting and escaping, inside a nested value
+		return e.Dict(name, zerolog.Dict().Str("pct", "100% %d %s").Str("k%v", "a%%b")), map[string]interface{}{"pct": "100% %d %s", "k%v": "a%%b"}
+	case "arrpct":
+		return e.Strs(name, []string{"50%", "%!s(x)", "a\\b"}), []interface{}{"50%", "%!s(x)", "a\\b"}
+	case "pct":
+		v := []string{"100%", "%d", "%%"}[i%3]
+		return e.Str(name, v), v
 	case "lvl-info":
 		return e.Str(name, "info"), "info"
 	case "lvl-warn":
